@@ -116,7 +116,7 @@ struct Tap
     static void cb(void *ud, int kind, size_t chip, unsigned a, unsigned b, unsigned c) { ((Tap *)ud)->on(kind, chip, a, b, c); }
     void on(int kind, size_t chip, unsigned a, unsigned b, unsigned c)
     {
-        if(kind == 'G') { frames += a; ++periods; if((int)a > maxPeriod) maxPeriod = (int)a; if((int)b > maxPeriod) maxPeriod = (int)b; if(pf.size() < 100) pf.push_back((int)a); return; }
+        if(kind == 'G') { frames += a; ++periods; if((int)a > maxPeriod) maxPeriod = (int)a; if(pf.size() < 100) pf.push_back((int)a); return; }
         ++raw;
         if(kind == 'P') { push("span", (int)(chip * 6 + a), (int)b); return; }
         unsigned port = a & 1, reg = b & 0xFF, val = c & 0xFF;
